@@ -1681,3 +1681,75 @@ type Ctl struct {
 		}
 	}
 }
+
+// C18 through the front end: diagnostics about an annotation's value, one kind at a time, at three indentations -
+// each covers text equal to that value in the file of the method
+func vh_C18_front_values_Q() {
+	indent := []string{"", "\t", "      "}[symxChoice("indent", 3)]
+	type variant struct{ ann, value string }
+	variants := []variant{
+		{"@Response(641) odd", "641"},
+		{"@Response(abc) bad", "abc"},
+		{"@ErrorResponse(99) low", "99"},
+		{"@ErrorResponse(4o4) typo", "4o4"},
+		{"@Query(zz)", "zz"},
+		{"@Header(zz)", "zz"},
+		{"@FormField(zz)", "zz"},
+		{"@Body(zz)", "zz"},
+		{"@Method(FETCH)", "FETCH"},
+	}
+	v := variants[symxChoice("variant", len(variants))]
+	method := "// @Method(GET)\n"
+	if strings.HasPrefix(v.ann, "@Method") {
+		method = ""
+	}
+	doc := indent + "// Op é€ does things\n" + indent + method
+	if method == "" {
+		doc = indent + "// Op é€ does things\n"
+	}
+	doc += indent + "// @Route(/op)\n" + indent + "// " + v.ann + "\n"
+	src := `package ctl
+
+import "github.com/gopher-fleece/runtime"
+
+// @Tag(T)
+// @Route(/c)
+type Ctl struct {
+	runtime.GleeceController
+}
+
+` + doc + indent + `func (c *Ctl) Op() error { return nil }
+`
+	fr, err := visitors.VhLoadSource(src, nil)
+	symxAssert(err == nil, "C18.front.fixture-loads")
+	if err != nil {
+		return
+	}
+	p := pipeline.VhNewPipeline(fr, vhFrontConfig())
+	if p.GenerateGraph() != nil {
+		return
+	}
+	tree, err := p.Validate()
+	symxAssert(err == nil, "C18.front.validation-runs")
+	if err != nil {
+		return
+	}
+	lines := strings.Split(src, "\n")
+	found := false
+	for _, d := range vhFlattenDiags(tree) {
+		r := d.Range
+		symxAssert(d.FilePath == fr.Path, "C18.front.names-the-file-of-the-offending-method")
+		inside := r.StartLine >= 0 && r.EndLine < len(lines) && r.StartLine <= r.EndLine && r.StartCol >= 0 && r.EndCol >= 0 &&
+			r.StartCol <= len([]rune(lines[r.StartLine])) && r.EndCol <= len([]rune(lines[r.EndLine]))
+		symxAssert(inside, "C18.front.range-lies-inside-the-file")
+		if inside && r.StartLine == r.EndLine && r.StartCol <= r.EndCol {
+			covered := string([]rune(lines[r.StartLine])[r.StartCol:r.EndCol])
+			symxRecord("diag", d.Code, covered)
+			if strings.Contains(lines[r.StartLine], v.ann) && covered == v.value {
+				found = true
+			}
+		}
+	}
+	symxCover("C18.front.values.checked")
+	symxAssert(found, "C18.front.value-diagnostic-covers-text-equal-to-the-value")
+}
